@@ -456,8 +456,10 @@ def write_evidence(prop, spec, tier, seed, results, wall, codegen_s, nviol, know
             cbmc_checks_total=sum(r["checks"] for r in results),
             solver_time_s=round(sum((r.get("solver_s") or 0) for r in results), 1),
             codegen_s=codegen_s,
+            functions_targeted=registry.FUNCTIONS.get(prop, []),
             functions_encoded=funcs[:400],
             functions_encoded_count=len(funcs),
+            functions_encoded_note="functions_encoded = functions in /repo source files in which CBMC reported at least one check; functions_targeted = the entry points the harnesses call",
             known_findings_hit=[k["what"] for k in known_hits],
             samples=samples,
             exhaustive=False,
